@@ -26,7 +26,7 @@ PERMS = {1: [(0,)], 2: [(0, 1), (1, 0)],
 
 def _graph(n, s0, d0, h0, s1, d1, h1, s2, d2, h2, v0, v1, v2, nsrc, ndst):
   edges = GR.pick_edges(n, [(s0, d0, h0), (s1, d1, h1), (s2, d2, h2)], nsrc, ndst)
-  o = GR.build(edges, v0, v1, v2)
+  o = GR.build(edges, v0, v1, v2, table=True)
   return o
 
 
@@ -173,7 +173,7 @@ def state_update_clone_pop(n, s0, d0, h0, s1, d1, h1, s2, d2, h2, v0, v1, v2, op
 
 EXPLANATION = (
     'C03: object graphs = fixed base (M0.child=M1, M0.items=list, M0.p=Param, '
-    'M1.b=BatchStat) + a symbolic list of extra edges between Modules, the list, '
+    'M1.b=BatchStat, M0.table={2: Param, 10: Param}) + a symbolic list of extra edges between Modules, the list, '
     'a dict, Variables, a static and an array attribute (aliasing, self reference '
     'and cycles are values of that list); split/merge/state/update/clone/pop '
     'compared with an independent reference canonical form.')
